@@ -25,11 +25,13 @@ pub enum FsOp {
     Rmdir { path: String },
     /// marker written by the traced process (client op begin / ack)
     Mark { text: String },
+    /// a system call on a path below the root that strace made fail (`-e inject=…`)
+    Fault { call: String, path: String },
 }
 
 impl FsOp {
     pub fn mutating(&self) -> bool {
-        !matches!(self, FsOp::Mark { .. })
+        !matches!(self, FsOp::Mark { .. } | FsOp::Fault { .. })
     }
 }
 
@@ -141,6 +143,12 @@ pub fn parse(text: &str, root: &str, marker_path: &str) -> Vec<FsOp> {
         let Some(eq) = line.rfind(") = ") else { continue };
         let args = split_args(&line[p + 1..eq]);
         let ret = line[eq + 4..].trim();
+        if ret.contains("(INJECTED)") {
+            // which path: first fd annotation or quoted path
+            let path = args.first().and_then(|a| fd_path(a)).filter(|p| !p.is_empty() && !args[0].starts_with("AT_FDCWD")).or_else(|| args.iter().find_map(|a| quoted(a)).map(|b| String::from_utf8_lossy(&b).to_string())).unwrap_or_default();
+            ops.push(FsOp::Fault { call: name.to_string(), path: rel(&path).unwrap_or(path) });
+            continue;
+        }
         if ret.starts_with('-') || ret.starts_with('?') {
             continue;
         }
@@ -309,7 +317,7 @@ impl SimFs {
             FsOp::Rmdir { path } => {
                 self.dirs.remove(path);
             }
-            FsOp::Mark { .. } => {}
+            FsOp::Mark { .. } | FsOp::Fault { .. } => {}
         }
     }
 
